@@ -139,3 +139,52 @@ def rowlocal(u, name, make_inputs, call, requires=None, tags=("C04",), skip_outp
                 rng.append(z3.And(v >= 0, v < zint(n)))
         gl, gr = ol.at(bL, *I), orr.at(bR, *I)
         u.prove(f"{name}.rowlocal.{k}.elem", IMPL(AND(*rng), B_(gl) == B_(gr) if ol.dtype == "b" else gl == gr), tags)
+
+
+def depot_tour_reward_unit(u, file, qual, clsname, tags=("C03",), static=False):
+    """reward = -(closed tour depot -> a_0 ... a_{T-1} -> depot) for `_get_reward` of CVRP-like envs."""
+    B, N, T = u.dims("B N T")
+    u.requires(T >= 2)
+    td = u.td(B, locs=((B, N + 1, 2), "f"))
+    act = u.tensor("actions", (B, T), "i")
+    u.requires(u.forall((B, T), lambda b, t: AND(act.at(b, t) >= 0, act.at(b, t) <= N)))
+    env = u.obj(file, clsname)
+    if static:
+        r = u.run(file, qual, td, act)
+    else:
+        r = u.run(file, qual, td, act, selfobj=env)
+    locs = td["locs"]
+
+    def node(b, k):
+        return ite(zint(k) == 0, 0, act.at(b, zint(k) - 1))
+
+    def leg(b, k):
+        k2 = ite(zint(k) + 1 < zint(T) + 1, zint(k) + 1, 0)
+        p, q = node(b, k), node(b, k2)
+        return ops.NORM2(locs.at(b, q, 0) - locs.at(b, p, 0), locs.at(b, q, 1) - locs.at(b, p, 1))
+
+    length = ops.reduce("sum", mk((B, T + 1), "f", lambda I: leg(I[0], I[1])), -1, label="length")
+    same_tensor(u, "reward.eq", r, (B,), lambda b: -length.at(b), tags=tags)
+    # canary: the open path (no return to the depot) is a different objective
+    def leg_open(b, k):
+        return ite(zint(k) + 1 < zint(T) + 1, leg(b, k), 0)
+
+    open_len = ops.reduce("sum", mk((B, T + 1), "f", lambda I: leg_open(I[0], I[1])), -1, label="openlength")
+    b = u.idx((B,), "cb")
+    u.canary("reward.open-path", r.at(b) == -open_len.at(b), tags=tags)
+
+
+def depot_tour_reward_rowlocal(u, file, qual, clsname, static=False):
+    N, T = u.dims("N T")
+    u.requires(T >= 2)
+    env = u.obj(file, clsname)
+
+    def mk_in(u, B):
+        return {"td": u.td(B, locs=((B, N + 1, 2), "f")), "actions": u.tensor("actions", (B, T), "i")}
+
+    def req(u, ins, B):
+        a = ins["actions"]
+        return u.forall((B, T), lambda b, t: AND(a.at(b, t) >= 0, a.at(b, t) <= N))
+
+    call = (lambda u, ins: u.run(file, qual, ins["td"], ins["actions"])) if static else (lambda u, ins: u.run(file, qual, ins["td"], ins["actions"], selfobj=env))
+    rowlocal(u, "reward", mk_in, call, requires=req)
